@@ -261,7 +261,9 @@ def apply_edit(cap, edit):
     return kind
 
 
-EDIT_KINDS = ["swap_value_kind", "alter_value", "alter_formal", "add_attr", "remove_attr", "alter_id", "toggle_id",
+# ("swap_value_kind" - the same URI as qualified name <-> xsd:anyURI - is implemented above but
+# not drawn: whether those are one value or two is exactly what the library's == leaves open)
+EDIT_KINDS = ["alter_value", "alter_formal", "add_attr", "remove_attr", "alter_id", "toggle_id",
               "remove_record", "add_record", "add_bundle", "remove_bundle", "add_member",
               "remove_member", "swap_type"]
 
